@@ -203,6 +203,11 @@ type World struct {
 
 	ctrls map[string]Reconciler
 
+	// DeployClient is the (possibly lagging) client of the ObjectDeployment controllers: objects in
+	// HiddenFromDeploy are not yet visible to its reads (informer has not delivered the create yet).
+	DeployClient     *kubesim.Client
+	HiddenFromDeploy map[kubesim.Key]bool
+
 	PassSeq int
 	Passes  []*PassInfo
 }
@@ -233,6 +238,16 @@ func NewWorld() *World {
 	w.Store.CurActor = "setup"
 	w.Client = w.Store.NewClient("client")
 	w.Uncached = w.Store.NewClient("uncached")
+	w.HiddenFromDeploy = map[kubesim.Key]bool{}
+	w.DeployClient = w.Store.NewClient("client")
+	w.DeployClient.Filter = func(o map[string]any) bool {
+		if len(w.HiddenFromDeploy) == 0 {
+			return true
+		}
+		gvk := GVKOf(o)
+		k, _, _ := w.Store.KeyFor(gvk, kubesim.MetaString(o, "namespace"), kubesim.MetaString(o, "name"))
+		return !w.HiddenFromDeploy[k]
+	}
 	for _, ns := range []string{NSMain, NSOther} {
 		n := &corev1.Namespace{}
 		n.Name = ns
